@@ -1047,6 +1047,16 @@ func (mr *machineRun) emit(x *Exec, role string, byName map[string][]Obl, notes 
 				}
 			}
 		}
+		if !strings.HasPrefix(role, "next") {
+			// C08 speaks about a producer's call to Next: what the terminal callbacks emit is not a backpressure matter
+			var kept []string
+			for _, p := range props {
+				if p != "C08" {
+					kept = append(kept, p)
+				}
+			}
+			props = kept
+		}
 		if n == "inv-initial" {
 			// the state of a subscription starts from its initial value whoever subscribed before: also a C12 fact
 			props = append(append([]string{}, props...), "C12")
